@@ -139,9 +139,13 @@ def h_seq(ctx, plan):
       msg = of.ofp_vendor_generic(vendor=ctx.int('ven%d' % i, 0, 0xffffffff), data=b'ab')
       error(xid, 1, (3,))
     elif kind == 'queue_cfg':
-      pn = ctx.int('qport%d' % i, 1, NPORTS)
+      pn = ctx.int('qport%d' % i, 0, 0xffff)           # any port number, also ones the switch does not have and the virtual ones
       msg = of.ofp_queue_get_config_request(port=pn)
-      reply(of.ofp_queue_get_config_reply, xid, lambda m, pn=pn: m.port == pn)
+      def chkq(m, pn=pn):
+        # exactly one answer: the (empty) queue list of that port, or - only for a port the switch does not have - QUEUE_OP_FAILED / BAD_PORT
+        if isinstance(m, of.ofp_error): return ctx.And(ctx.Not(ctx.And(pn >= 1, pn <= NPORTS)), m.type == 5, m.code == 0)
+        return ctx.And(m.port == pn, len(m.queues) == 0)
+      expect.append(((of.ofp_queue_get_config_reply, of.ofp_error), xid, chkq))
     elif kind == 'port_mod':
       pn = ctx.int('pmport%d' % i, 0, 0xffff)
       good_hw = ctx.bool('pmhw%d' % i)
